@@ -88,7 +88,7 @@ def run(ctx):
             ctx.violation(f"proof-broken:{name}", {"theorem": f"props/{name}.v", "log": logp[-3000:]},
                           f"props/{name}.v no longer checks", no_input=True)
     lib.coq_make(["theories/Search.vo"])
-    n_prog = ctx.pick(36, 300)
+    n_prog = ctx.pick(48, 300)
     N = ctx.pick(3, 5)
     progs = lib.replay_programs(ctx) or list(gen.corpus())
     while len(progs) < n_prog and not ctx.replay:
